@@ -9,15 +9,15 @@ Lemma wf_same_tables h h' : wf h -> same_tables h h' -> h_next h <= h_next h' ->
 Proof. intros W (S1 & S2 & S3 & S4 & S5) L. apply wfx_nil. apply wfx_nil in W.
   destruct h' as [a b c d e n]. simpl in *. subst. apply (wfx_bump [] h n W L). Qed.
 
-Lemma success_from_dup h m tm0 h3 r2 pb h4 g path h5 am h6 at_ k inputs masked :
+Lemma success_from_dup h m tm0 h3 r2 pb (root : id) h4 g path h5 am h6 at_ k inputs masked :
   wf h -> getT h m = Some tm0 -> Preamble h m tm0 h3 r2 pb ->
-  dup h3 (match t_base r2 with Some b => b | None => m end) = Some (h4, g) ->
+  root = (match t_base r2 with Some b => b | None => m end) ->
+  dup h3 root = Some (h4, g) ->
   path_to_base g m = Some path -> new_array h4 None None = (h5, am) ->
-  (if Nat.eqb m (match t_base r2 with Some b => b | None => m end) then Some (h5, am) else view_array h5 am) = Some (h6, at_) ->
+  (if Nat.eqb m root then Some (h5, am) else view_array h5 am) = Some (h6, at_) ->
   (forall i, In i inputs -> getT h i <> None) ->
-  exists h12, inplace_success h6 g m k inputs masked am at_ (match t_base r2 with Some b => b | None => m end) path = Some (Done h12) /\ wf h12.
-Proof. intros W Hm P D EP NA E6 Hin.
-  set (root := match t_base r2 with Some b => b | None => m end) in *.
+  exists h12, inplace_success h6 g m k inputs masked am at_ root path = Some (Done h12) /\ wf h12.
+Proof. intros W Hm P Hroot D EP NA E6 Hin.
   pose proof (pr_wf _ _ _ _ _ _ P) as W3.
   destruct (dup_spec h3 root h4 g W3 D) as (tb & L & DS).
   pose proof (FZ_h4 h3 root h4 g tb L W3 DS) as F4.
@@ -25,10 +25,10 @@ Proof. intros W Hm P D EP NA E6 Hin.
   pose proof (new_array_spec _ _ _ _ _ NA) as (N1 & N2 & N3 & N4 & N5 & N6 & N7 & N8).
   assert (F6 : FZ root h4 g h6 /\ getA h6 at_ <> None /\ getA h6 am <> None).
   { destruct (Nat.eqb m root).
-    - inversion E6; subst. auto.
+    - inversion E6; subst h6 at_. auto.
     - split; [eapply FZ_view_array; eauto|].
       pose proof (view_array_spec _ _ _ _ E6) as (V1 & V2 & V3 & V4 & V5 & V6 & V7 & V8). split; auto.
-      rewrite V8; auto. subst at_ am. lia. }
+      rewrite V8; auto. rewrite V5, N5. lia. }
   destruct F6 as (F6 & Hat & Ham).
   pose proof EP as EP'. unfold path_to_base in EP'. apply bind_Some in EP'. destruct EP' as (nm & Hnm & _).
   assert (Hm3 : getT h3 m = Some r2) by apply (pr_m _ _ _ _ _ _ P).
@@ -67,7 +67,7 @@ Proof. intros W Hm Hin. destruct fails; [eapply inplace_fail_not_stuck; eauto|].
     destruct (g_path_check h3 root h4 g tb L (pr_wf _ _ _ _ _ _ P) DS n Hn) as (rp & Erp & Hc).
     unfold getT. rewrite Ht6. fold (getT h4 (n_p n)). rewrite Erp. exact Hc. }
   cbn [negb].
-  destruct (success_from_dup h m tm0 h3 tm2 pb h4 g path h5 am h6 at_ k inputs masked W Hm P D EP NA E6 Hin) as (h12 & E12 & _).
+  destruct (success_from_dup h m tm0 h3 tm2 pb _ h4 g path h5 am h6 at_ k inputs masked W Hm P eq_refl D EP NA E6 Hin) as (h12 & E12 & _).
   eauto. Qed.
 
 (* T5, in-place statement *)
@@ -93,7 +93,7 @@ Proof. intros W Hin H. destruct out as [h'|h'].
   apply bind_Some in H. destruct H as ([h6 at_] & E6 & H).
   destruct (negb (path_check h6 _ path)); [discriminate|].
   destruct fails; [exfalso; eapply Hfail; eauto|].
-  destruct (success_from_dup h m tm0 h3 tm2 pb h4 g path h5 am h6 at_ k inputs masked W Hm P D EP NA E6 Hin) as (h12 & E12 & W12).
+  destruct (success_from_dup h m tm0 h3 tm2 pb _ h4 g path h5 am h6 at_ k inputs masked W Hm P eq_refl D EP NA E6 Hin) as (h12 & E12 & W12).
   rewrite E12 in H. inversion H; subst. exact W12. Qed.
 
 (* ------------------------------------------------------------------ T5, the other statements *)
@@ -104,7 +104,7 @@ Proof. intros W. apply wfx_nil in W. apply wfx_nil. unfold new_leaf.
   eapply wfx_new_tensor; [eapply wfx_new_array; eauto|exact NT|discriminate]. Qed.
 
 Lemma wf_op h k vars h' : wf h -> step h (SOp k vars) = Some (Done h') -> wf h'.
-Proof. intros W H. apply wfx_nil in W. apply wfx_nil. simpl in H.
+Proof. intros W H. apply wfx_nil in W. apply wfx_nil. unfold step in H.
   destruct (new_array h None None) as [h1 a] eqn:NA.
   apply bind_Some in H. destruct H as ([h2 t] & AO & H). inversion H; subst. simpl.
   pose proof (wfx_new_array [] _ _ _ _ _ W NA) as W1.
@@ -115,7 +115,7 @@ Proof. intros W H. apply wfx_nil in W. apply wfx_nil. simpl in H.
   - intros v []. Qed.
 
 Lemma wf_view h k par h' : wf h -> step h (SView k par) = Some (Done h') -> wf h'.
-Proof. intros W H. apply wfx_nil in W. apply wfx_nil. simpl in H.
+Proof. intros W H. apply wfx_nil in W. apply wfx_nil. unfold step in H.
   apply bind_Some in H. destruct H as ([h2 t] & AV & H). inversion H; subst. simpl.
   eapply wfx_apply_view; eauto. Qed.
 
@@ -129,12 +129,12 @@ Definition stmt_ok (h : heap) (s : stmt) : Prop :=
 
 Theorem wf_step h s o : wf h -> stmt_ok h s -> step h s = Some o -> wf (heap_of o).
 Proof. intros W OK H. destruct s as [|k vars|k par|m k inputs masked fails|t].
-  - simpl in H. inversion H; subst. simpl. now apply wf_new_leaf.
+  - unfold step in H. inversion H; subst. simpl. now apply wf_new_leaf.
   - assert (exists h', o = Done h') as (h' & ->).
-    { simpl in H. destruct (new_array h None None). apply bind_Some in H. destruct H as (? & _ & H). inversion H; eauto. }
+    { unfold step in H. destruct (new_array h None None). apply bind_Some in H. destruct H as (? & _ & H). inversion H; eauto. }
     simpl. eapply wf_op; eauto.
   - assert (exists h', o = Done h') as (h' & ->).
-    { simpl in H. apply bind_Some in H. destruct H as (? & _ & H). inversion H; eauto. }
+    { unfold step in H. apply bind_Some in H. destruct H as (? & _ & H). inversion H; eauto. }
     simpl. eapply wf_view; eauto.
   - simpl in H, OK. eapply wf_inplace; eauto.
   - destruct OK. Qed.
